@@ -71,3 +71,34 @@ Proof. eexists. eexists. vm_compute. reflexivity. Qed.
 Print Assumptions unreported_enum_own_table.
 Print Assumptions unreported_enum_class_exact.
 Print Assumptions twins_share_only_equal_tables.
+
+(* ================= to_text member = text of the declared value ================= *)
+
+(* string enums: the member a listed value decodes to stringifies to exactly that value *)
+Theorem enum_text_str : forall vs m,
+  forallb ev_is_str vs = true -> g_no_bs_nl vs = true -> g_enum_sanitised_distinct vs = true -> g_member_names vs = true ->
+  values_from_list vs = Some m ->
+  exists cls, str_enum_class m = Some cls /\
+    (forall s, In (EStr s) vs -> exists k, enum_decode cls (JStr s) = DMember k /\ enum_text cls k = Some s) /\
+    (forall j k, enum_lookup cls j = Some k -> exists s, In (EStr s) vs /\ enum_text cls k = Some s).
+Proof.
+  intros vs m H1 H2 H3 H4 Hm.
+  destruct (enum_exact_str vs m H1 H2 H3 H4 Hm) as (cls & Hc & Hl & Hs & _ & _).
+  exists cls. split; [exact Hc|]. split.
+  - intros s Hin. destruct (Hl s Hin) as (k & Hd & Hv). exists k. split; [exact Hd|]. unfold enum_text. rewrite Hv. reflexivity.
+  - intros j k Hk. destruct (Hs j k Hk) as (s & _ & Hin & Hv). exists s. split; [exact Hin|]. unfold enum_text. rewrite Hv. reflexivity.
+Qed.
+
+(* integer enums: the member of z stringifies to the decimal text of z *)
+Theorem enum_text_int : forall vs m,
+  forallb ev_is_int vs = true -> values_from_list vs = Some m ->
+  exists cls, int_enum_class m = Some cls /\
+    (forall z, In (EInt z) vs -> exists k, enum_decode cls (JInt z) = DMember k /\ enum_text cls k = Some (dec_Z z)).
+Proof.
+  intros vs m H1 Hm. destruct (enum_exact_int vs m H1 Hm) as (cls & Hc & Hl & _).
+  exists cls. split; [exact Hc|]. intros z Hin. destruct (Hl z Hin) as (k & Hd & Hv). exists k. split; [exact Hd|].
+  unfold enum_text. rewrite Hv. reflexivity.
+Qed.
+
+Print Assumptions enum_text_str.
+Print Assumptions enum_text_int.
